@@ -141,10 +141,11 @@ class Ctx:
 def check_C01(ctx):
     ctx.v.cov["rule"] = ("grid: word size x endianness x buffer fill level x next operation (write_bits n=0..64 x value "
                          "patterns incl. dirty high bits; write_unary 0..3W+2; flush/double flush) + random histories over "
-                         "the four backend kinds; delivered byte count after every operation and the final image are compared "
+                         "the four backend kinds, the writer ending by drop or into_inner with or without pending bits; delivered byte count after every operation, the final image and the image once the writer is gone are compared "
                          "with the L2 machine and with the canonical L0 layout; non-trivial = distinct case with >= 1 operation "
                          "on which the model is defined")
-    cases = gen.gen_C01(ctx.rng, ctx.tier)
+    # (the staging byte sink, backend 4, belongs to C11: flush propagation through the adapter)
+    cases = [c for c in gen.gen_C01(ctx.rng, ctx.tier) if c.groups[0][8] != 4]
     ctx.corr(cases, what="C01 writer image")
 
 
@@ -279,6 +280,9 @@ def check_C03(ctx):
     items = code_items(ctx, dense=(ctx.tier != "quick"))
     written = write_phase(ctx, items, "C03 round trip")
     read_phase(ctx, written, "C03 round trip")
+    # table reads stop exactly at the end of the codeword whatever follows: every decoding-table index
+    cases, oracle = table_sweep(ctx, 1)
+    ctx.corr(cases, what="C03 table reads, every index", oracle=oracle)
 
 
 def check_C06(ctx):
@@ -332,17 +336,17 @@ def check_C06(ctx):
                                 {"kind": "disagreement", "class_key": "len-cross", "item": {k: it[k] for k in ("cid", "p", "v", "wfl", "E")}}, True)
                 break
     read_phase(ctx, written, "C06 written=consumed")
+    # bits consumed by a table read = bits consumed bit by bit (= len, by the phases above): every table index
+    cases, oracle = table_sweep(ctx, 1)
+    ctx.corr(cases, what="C06 consumed by table reads, every index", oracle=oracle)
 
 
-def check_C05(ctx):
-    ctx.v.cov["rule"] = ("every index of every decoding table (2^9+2^11+2^12 patterns, BE and LE) embedded at a random buffer "
-                         "fill state and word size, decoded with the table and (on a clone) without; every entry of the "
-                         "encoding/length tables and values around each table boundary; strict backends with the code in "
-                         "the last word; table result = non-table result = model")
+def table_sweep(ctx, reps):
+    """every index of every decoding table embedded at a random buffer fill state and word size, decoded with
+    the table and (on a clone) without; returns (cases, oracle)"""
     rng = ctx.rng
     cases = []
     tabs = [(1, 9), (2, 11), (12, 12)]
-    reps = 1 if ctx.tier == "quick" else 4
     # the property covers every reader whose construction printed no diagnostic for the table
     flagged = core.probe_diagnostics(ctx.harness("debug", ())) if ctx.harness("debug", ()) else {}
     names = {8: "u8", 16: "u16", 32: "u32", 64: "u64", 0: "unbuffered"}
@@ -368,7 +372,6 @@ def check_C05(ctx):
                     fl_t = 1 if cid != 2 else rng.choice([1, 3])
                     ops += [[19], [15, cid, 0, fl_t], [17], [20], [15, cid, 0, 0], [17]]
                     cases.append(Case([world_hdr(E, rW=rW, rstrict=0), data] + ops, "decode-table/code%d" % cid))
-    n_ops = None
 
     def oracle(c, r):
         # table read (on the live reader) and non-table read (on the clone) must agree
@@ -379,6 +382,16 @@ def check_C05(ctx):
         if (tv, tp) != (nv, np_):
             return "table read (%d, pos %d) != bit-by-bit read (%d, pos %d)" % (tv, tp, nv, np_)
         return None
+    return cases, oracle
+
+
+def check_C05(ctx):
+    ctx.v.cov["rule"] = ("every index of every decoding table (2^9+2^11+2^12 patterns, BE and LE) embedded at a random buffer "
+                         "fill state and word size, decoded with the table and (on a clone) without; every entry of the "
+                         "encoding/length tables and values around each table boundary; strict backends with the code in "
+                         "the last word; table result = non-table result = model")
+    reps = 1 if ctx.tier == "quick" else 4
+    cases, oracle = table_sweep(ctx, reps)
     ctx.corr(cases, what="C05 decode tables", oracle=oracle)
     # encoding tables: every entry and the boundary, all flag combinations, vs no-table bytes
     items = []
@@ -610,6 +623,11 @@ def check_C12(ctx):
                         pre.append([10, k]); left -= k
                     ops = pre + [[16, ln], [10, 3], [16, 2]]
                     cases.append(Case([world_hdr(E, rW=rW), data] + ops, "io_read/W%d" % rW))
+                    # the same after a look-ahead refill (peek of the widest legal width: more than one word in the
+                    # buffer), on random and on all-ones data
+                    pk = [13, Wb if rW else 32]
+                    cases.append(Case([world_hdr(E, rW=rW), rng.choice([data, [255] * len(data)])] + pre + [pk, [16, ln], [10, 3], pk, [16, 2]],
+                                      "io_read-after-peek/W%d" % rW))
     for _ in range(60 if ctx.tier == "quick" else 600):
         E = rng.randrange(2)
         ln = rng.randrange(41, 300)
@@ -1184,6 +1202,12 @@ def check_C11(ctx):
                     return "word_pos reported %r after %d words" % (g, pos)
         return None
     ctx.corr(pcases, what="C11 word positions", oracle=oracle_pos, levels=[])
+    # bit streams through the adapter (plain byte sink, and a STAGING sink that only hands bytes over when it is
+    # itself flushed) vs the memory image of the model; readers over the adapter on a Cursor
+    wcs = [c for c in gen.gen_C01(rng, ctx.tier) if c.groups[0][8] in (2, 4)]
+    ctx.corr(wcs, what="C11 bit streams written through the adapter")
+    rcs = [c for c in gen.gen_reader_cases(rng, "quick", False) if c.groups[0][9] == 3]
+    ctx.corr(rcs, what="C11 bit streams read through the adapter")
 
 
 def check_C15(ctx):
@@ -1210,7 +1234,26 @@ def check_C15(ctx):
                 ops.append([4])
         ops += [[3], [4]]
         cases.append(Case([[9], []] + ops, "stats", levels=(2,)))
-    ctx.corr(cases, what="C15 statistics")
+    def oracle(c, r):
+        # the property's own oracle on the implementation's totals: the reported best code is a tracked code whose
+        # total is the minimum of all tracked totals, and the reported cost is that minimum
+        # (tracked: zeta 1..=10, golomb 1..=20, exp-golomb 0..=9, rice 0..=9, pi 2..=11 after the six fixed codes)
+        for i in range(len(r) - 1):
+            f, b = r[i], r[i + 1]
+            if len(f) == 67 and len(b) == 4 and f[0] == 0 and b[0] == 0:
+                tot = {(0, 0): f[2], (1, 0): f[3], (2, 0): f[4], (3, 0): f[5], (5, 0): f[6], (4, 0): f[6]}
+                j = 7
+                for var, lo, cnt in ((6, 1, 10), (8, 1, 20), (9, 0, 10), (10, 0, 10), (7, 2, 10)):
+                    for q in range(cnt):
+                        tot[(var, lo + q)] = f[j]; j += 1
+                key = (b[1], b[2] if b[1] >= 6 else 0)
+                if key not in tot:
+                    return "best_code reports %r which is not a tracked code" % (key,)
+                m = min(tot.values())
+                if tot[key] != m or b[3] != m:
+                    return "best_code reports code %r (total %d) with cost %d but the minimum tracked total is %d" % (key, tot[key], b[3], m)
+        return None
+    ctx.corr(cases, what="C15 statistics", oracle=oracle)
     # permutation invariance + threads: the threaded run must equal the sequential model run
     tcases = []
     mcases = []
